@@ -109,6 +109,13 @@ def _main(pid, tier, seed, replay_file):
     except Exception as e:       # source no longer has the shape the translator understands
         broken.append({'kind': 'table-extraction', 'what': '%s: %s' % (type(e).__name__, e)})
         log('table extraction failed:', e)
+    # every other generated file is brought in line with the tree under check as well (the driver imports all
+    # of them); a table of another property that cannot be extracted is that property's business
+    for other in sorted(set(extract_tables.all_tables()) - set(mod.TABLES)):
+        try:
+            extract_tables.generate([other])
+        except Exception as e:
+            log('table %s (not used by %s) could not be regenerated: %s' % (other, pid, e))
 
     # 2 build ----------------------------------------------------------------
     ok_driver, out_driver = common.lake_build(['driver'])
